@@ -185,3 +185,21 @@ def misc_shapes():
 
 def all_shapes():
     return param_shapes() + with_item_shapes() + misc_shapes()
+
+
+def rule_violations():
+    """texts that break one rule the parser itself enforces (property C04's catalogue), in compact and spaced spellings,
+    for def / async def / lambda / calls / class argument lists / decorators — used by checks that compare BUILDS or entry
+    points on invalid input (the error must be the same everywhere)"""
+    out = []
+    plists = ["a,a", "a, a", "_,_", "ab,ab", "a,*a", "a,/,a", "a, /, a", "*,a,a", "*, a, a", "a,**a", "*a,**a", "a,b,a", "a,*,a",
+              "a=1,b", "a=1, b", "a=1,/,b", "a,b=1,c", "*", "*,", "*,**k", "a,*", "a=1,a"]
+    for p in plists:
+        out += [f"def f({p}): pass\n", f"async def f({p}): pass\n", f"lambda {p}: 0\n", f"lambda {p}:0\n", f"x = [lambda {p}: 0]\n",
+                f"class C:\n    def m({p}): pass\n", f"@d\ndef f({p}): pass\n"]
+    alists = ["a=1,b", "a=1, b", "**a,b", "**a,*b", "**a, *b", "a=1,a=2", "a=1, a=2", "k=1,**d,k=2", "**a,b=1,*c", "*a,b=1,c"]
+    for a in alists:
+        out += [f"f({a})\n", f"f( {a} )\n", f"class C({a}): pass\n", f"@f({a})\ndef g(): pass\n", f"x = f(g({a}))\n", f"f({a},)\n"]
+    out += ["(*a)\n", "( *a )\n", "(**a)\n", "x = (*a)\n", "f((*a))\n", "[(*a)]\n", "match x:\n    case 1 as _: pass\n",
+            "match x:\n    case [a, b as _]: pass\n", "match x:\n    case (1|2) as _: pass\n"]
+    return list(dict.fromkeys(out))
